@@ -1001,5 +1001,68 @@ func c18Run(c *core.Ctx) *core.Result {
 			r.ViolateD(sig, sample, "request %q resolves to %q in the source but %s (FollowPaths=%q, include set %q, transferred %q)", q, sr.Final, bad, reqs, res, got.Paths())
 		}
 	}
+	// requests with wildcards (in any component): every match that is reached
+	// through real directories only and is not itself a symlink is a
+	// requested path as well; it must be in the copy, same type, same bytes
+	for _, q := range reqs {
+		if !strings.ContainsAny(q, "*?[") || strings.Contains(q, "..") {
+			continue
+		}
+		for _, mp := range c18ExpandPlain(t, sidx, q) {
+			r.Count("e2e_wildcard_matches_checked", 1)
+			se := sidx[mp]
+			de, ok := gidx[mp]
+			bad := ""
+			switch {
+			case !ok:
+				bad = "is missing in the copy"
+			case se.Type != de.Type:
+				bad = fmt.Sprintf("is a %c in the copy, %c in the source", de.Type, se.Type)
+			case se.Type == tree.File && !bytes.Equal(se.Data, de.Data):
+				bad = "has different bytes in the copy"
+			}
+			if bad != "" {
+				r.ViolateD("followpaths-wildcard-match-lost", sample, "request %q matches %q in the source (through directories only, no symlink involved) but it %s (FollowPaths=%q, include set %q, transferred %q)", q, mp, bad, reqs, res, got.Paths())
+			}
+		}
+	}
 	return r
+}
+
+// c18ExpandPlain expands the wildcards of a request against the tree,
+// component by component, through real directories only; matches that are
+// symlinks (or lie behind one) are left out.
+func c18ExpandPlain(t *tree.Tree, idx map[string]*tree.Entry, q string) []string {
+	comps := strings.Split(strings.Trim(q, "/"), "/")
+	cur := []string{""}
+	for ci, c := range comps {
+		if c == "" || c == "." {
+			continue
+		}
+		var next []string
+		for _, d := range cur {
+			for _, name := range refs.Children(t, d) {
+				if ok, err := filepath.Match(c, name); err != nil || !ok {
+					continue
+				}
+				p := name
+				if d != "" {
+					p = d + "/" + name
+				}
+				e := idx[p]
+				if e == nil || e.Type == tree.Symlink {
+					continue
+				}
+				if ci < len(comps)-1 && e.Type != tree.Dir {
+					continue
+				}
+				next = append(next, p)
+			}
+		}
+		cur = next
+	}
+	if len(cur) == 1 && cur[0] == "" {
+		return nil
+	}
+	return cur
 }
